@@ -75,8 +75,15 @@ def gen_cases(ctx):
         for b in c["batches"]:
             b["commit"] = True
         cases.append(c)
+    # liveCache: non-default CacheHeightLimit, the instance pointed back at earlier roots
+    n_ct, n_cs = (60, 20) if quick else (3000, 1000)
+    for i in range(n_ct + n_cs):
+        cases.append(tg.cache_case(rng, "toy" if i < n_ct else "sha"))
+    for c in tg.load_corpus(os.path.join(vf.VERIF, "corpus", "C10", "cache")):
+        for hn in ("toy", "sha"):
+            cases.append(dict(c, hash=hn, shape="corpus-cache", atomic=c.get("atomic", False), proofs=0))
     for c in cases:
-        if c["hash"] == "toy" and all(b["commit"] for b in c["batches"]):
+        if c["hash"] == "toy" and all(b["commit"] or b.get("setroot") is not None for b in c["batches"]):
             c["dump"] = True
     for _ in range(n_sha):
         cases.append(tg.rand_case(rng, "sha"))
@@ -276,7 +283,7 @@ def parse_all(out):
 
 
 def slim(c):
-    return {k: c[k] for k in ("hash", "atomic", "batches", "q", "dump") if k in c}
+    return {k: c[k] for k in ("hash", "atomic", "batches", "q", "dump", "cache_limit") if k in c}
 
 
 def predicates(cases, obs):
@@ -305,7 +312,7 @@ def predicates(cases, obs):
             if prev[0] != o["roots"][i]:
                 fails.append(("root-history", "two histories reaching the same map have different roots", [slim(prev[1]), slim(c)]))
                 break
-        committed = [i for i, b in enumerate(c["batches"]) if b["commit"]]
+        committed = [i for i, b in enumerate(c["batches"]) if b["commit"] and b.get("setroot") is None]
         want = [(a, h) for n, a in enumerate(committed) for h in committed[:n + 1]]
         got = [(r["after"], r["at"]) for r in (o["reopen"] or [])]
         if want != got:
